@@ -39,6 +39,14 @@ def check_cfg(ctx, fx, cfg):
         ctx.require(ok, "R06.1", inst + ":owns", "the loop future must own context, notifier and receiver so that every exit releases them", fn=f["def"], site=f["loc"], detail=[u[:50] for u in up])
         # nobody else holds the receiver / notifier: they are not Clone and live in one place
     run_loops(ctx, fx, "R06.1", {"L3", "L6", "L11"})
+    # R06.11 (shared with C05) "the children it holds are released and stop gracefully": a child that is let go with its dead
+    # parent's context stops when its mailbox closes — nothing of its own (a timer) may hold a strong handle of it while it sleeps
+    from props import c05 as _c05, c04 as _c04
+    core.shared(ctx, "R06.11", _c05.check_timers_own_nothing, ctx, fx, cfg, "R06.11")
+    # R06.12 (shared with C04) "awaiting its address yields an error": the termination notice is sent by `notify` only, which only
+    # the loops' graceful end calls — a notifier that also reports on drop would turn every failure into a clean stop
+    if cfg == "tokio":
+        core.shared(ctx, "R06.12", _c04.check_notifier, ctx, fx, "R06.12")
     # the loop future is handed to the spawner as is (not wrapped in something that catches its failure)
     # R06.2 Context::drop aborts timers
     ab = timers.aborters(ctx, fx)
